@@ -113,6 +113,14 @@ class TaskSetBase {
   }
 
  protected:
+  // A task whose body is skipped because the set was cancelled is simply destroyed. A OnceFunction
+  // does not destroy its type-erased functor on destruction, so a skipped one must be told to.
+  template <typename F>
+  static void discardSkipped(F&) {}
+  static void discardSkipped(OnceFunction& f) {
+    f.cleanupNotRun();
+  }
+
   template <typename F>
   auto packageTask(F&& f) {
     outstandingTaskCount_.fetch_add(1, std::memory_order_acquire);
@@ -135,6 +143,8 @@ class TaskSetBase {
 #else
         f();
 #endif // __cpp_exceptions
+      } else {
+        discardSkipped(f);
       }
       if (pushed) {
         detail::popThreadTaskSet();
@@ -164,6 +174,8 @@ class TaskSetBase {
 #else
         f();
 #endif // __cpp_exceptions
+      } else {
+        discardSkipped(f);
       }
       if (pushed) {
         detail::popThreadTaskSet();
